@@ -464,3 +464,60 @@ func (w *World) isRecursive(f *ssa.Function) bool {
 	w.computeRecursive()
 	return recursiveFn[f]
 }
+
+// eventKindsIn returns the event kinds that instructions of the given blocks
+// (nil = whole function) may log, following inlined callees; ok=false means
+// "any kind" (a call through a function value).
+func (w *World) eventKindsIn(fn *ssa.Function, blocks map[*ssa.BasicBlock]bool, depth int, out map[string]bool) bool {
+	if depth > 6 {
+		return false
+	}
+	for _, b := range fn.Blocks {
+		if blocks != nil && !blocks[b] {
+			continue
+		}
+		for _, ins := range b.Instrs {
+			ci, ok := ins.(ssa.CallInstruction)
+			if !ok {
+				continue
+			}
+			com := ci.Common()
+			if com.IsInvoke() {
+				if w.sortOf(com.Value.Type()) == "Opaque" {
+					out[com.Method.Name()] = true
+				}
+				continue
+			}
+			var callee *ssa.Function
+			switch v := com.Value.(type) {
+			case *ssa.Function:
+				callee = v
+			case *ssa.MakeClosure:
+				callee = v.Fn.(*ssa.Function)
+			case *ssa.Builtin:
+				continue
+			case *ssa.Parameter:
+				out[v.Name()] = true
+				continue
+			default:
+				return false
+			}
+			if !w.inRepo(callee) {
+				out[mangle(libName(callee))] = true
+				continue
+			}
+			fc := w.contracts[funcKey(callee)]
+			if (fc != nil && (len(fc.Ensures)+len(fc.Requires) > 0) && !fc.Flags["inline"]) || w.isRecursive(callee) || w.isModular(callee) {
+				out[callee.Name()] = true
+				continue
+			}
+			if pd := w.pureDef(callee); pd != nil {
+				continue
+			}
+			if !w.eventKindsIn(callee, nil, depth+1, out) {
+				return false
+			}
+		}
+	}
+	return true
+}
